@@ -9,6 +9,8 @@ package abi
 
 // precompiled_info.go — TRUSTED SUMMARIES (listed in the evidence's trusted base) of go-ethereum accounts/abi
 // (abi.Arguments.Unpack / Pack, type.go, unpack.go) applied to the embedded ABI documents (erc20.abi.json ...):
+// (helper cpc2: the same summary covers the staking ABI's methods of the same input shapes — delegate / undelegate
+// (address, uint256), redelegate (address, address, uint256), withdrawReward (address), withdrawRewards ())
 // the Go types of the unpacked values are fixed by the ABI types of the method's inputs
 // (address -> common.Address, uint256 -> *big.Int in [0, 2^256), see accounts/abi/unpack.go toGoType / ReadInteger).
 // The decoded values are named by uninterpreted functions of the call data.
@@ -23,10 +25,10 @@ package abi
 //@ func (s CustomPrecompiledContractInfo) UnpackMethodInput(methodName string, fullInput []byte) (ips []interface{}, err error)
 //@   assumed
 //@   modifies nothing
-//@   ensures (err == nil && (methodName == "name" || methodName == "symbol" || methodName == "decimals" || methodName == "totalSupply")) ==> len(ips) == 0
-//@   ensures (err == nil && methodName == "balanceOf") ==> (len(ips) == 1 && typeof(ips[0]) == type(common.Address) && unbox(ips[0], type(common.Address)) == abiArgAddr(bytes(fullInput), 0))
-//@   ensures (err == nil && (methodName == "transfer" || methodName == "approve" || methodName == "burnFrom")) ==> (len(ips) == 2 && typeof(ips[0]) == type(common.Address) && unbox(ips[0], type(common.Address)) == abiArgAddr(bytes(fullInput), 0) && typeof(ips[1]) == type(*big.Int) && unbox(ips[1], type(*big.Int)) != nil && fresh(unbox(ips[1], type(*big.Int))) && bigval[unbox(ips[1], type(*big.Int))] == abiArgUint(bytes(fullInput), 1) && 0 <= abiArgUint(bytes(fullInput), 1) && abiArgUint(bytes(fullInput), 1) < pow2(256))
-//@   ensures (err == nil && methodName == "transferFrom") ==> (len(ips) == 3 && typeof(ips[0]) == type(common.Address) && unbox(ips[0], type(common.Address)) == abiArgAddr(bytes(fullInput), 0) && typeof(ips[1]) == type(common.Address) && unbox(ips[1], type(common.Address)) == abiArgAddr(bytes(fullInput), 1) && typeof(ips[2]) == type(*big.Int) && unbox(ips[2], type(*big.Int)) != nil && fresh(unbox(ips[2], type(*big.Int))) && bigval[unbox(ips[2], type(*big.Int))] == abiArgUint(bytes(fullInput), 2) && 0 <= abiArgUint(bytes(fullInput), 2) && abiArgUint(bytes(fullInput), 2) < pow2(256))
+//@   ensures (err == nil && (methodName == "name" || methodName == "symbol" || methodName == "decimals" || methodName == "totalSupply" || methodName == "withdrawRewards")) ==> len(ips) == 0
+//@   ensures (err == nil && (methodName == "balanceOf" || methodName == "withdrawReward")) ==> (len(ips) == 1 && typeof(ips[0]) == type(common.Address) && unbox(ips[0], type(common.Address)) == abiArgAddr(bytes(fullInput), 0))
+//@   ensures (err == nil && (methodName == "transfer" || methodName == "approve" || methodName == "burnFrom" || methodName == "delegate" || methodName == "undelegate")) ==> (len(ips) == 2 && typeof(ips[0]) == type(common.Address) && unbox(ips[0], type(common.Address)) == abiArgAddr(bytes(fullInput), 0) && typeof(ips[1]) == type(*big.Int) && unbox(ips[1], type(*big.Int)) != nil && fresh(unbox(ips[1], type(*big.Int))) && bigval[unbox(ips[1], type(*big.Int))] == abiArgUint(bytes(fullInput), 1) && 0 <= abiArgUint(bytes(fullInput), 1) && abiArgUint(bytes(fullInput), 1) < pow2(256))
+//@   ensures (err == nil && (methodName == "transferFrom" || methodName == "redelegate")) ==> (len(ips) == 3 && typeof(ips[0]) == type(common.Address) && unbox(ips[0], type(common.Address)) == abiArgAddr(bytes(fullInput), 0) && typeof(ips[1]) == type(common.Address) && unbox(ips[1], type(common.Address)) == abiArgAddr(bytes(fullInput), 1) && typeof(ips[2]) == type(*big.Int) && unbox(ips[2], type(*big.Int)) != nil && fresh(unbox(ips[2], type(*big.Int))) && bigval[unbox(ips[2], type(*big.Int))] == abiArgUint(bytes(fullInput), 2) && 0 <= abiArgUint(bytes(fullInput), 2) && abiArgUint(bytes(fullInput), 2) < pow2(256))
 //@   ensures (err == nil && methodName == "allowance") ==> (len(ips) == 2 && typeof(ips[0]) == type(common.Address) && unbox(ips[0], type(common.Address)) == abiArgAddr(bytes(fullInput), 0) && typeof(ips[1]) == type(common.Address) && unbox(ips[1], type(common.Address)) == abiArgAddr(bytes(fullInput), 1))
 //@   ensures (err == nil && methodName == "burn") ==> (len(ips) == 1 && typeof(ips[0]) == type(*big.Int) && unbox(ips[0], type(*big.Int)) != nil && fresh(unbox(ips[0], type(*big.Int))) && bigval[unbox(ips[0], type(*big.Int))] == abiArgUint(bytes(fullInput), 0) && 0 <= abiArgUint(bytes(fullInput), 0) && abiArgUint(bytes(fullInput), 0) < pow2(256))
 //@   panics only_if len(fullInput) < 4 || !abiSelectorOk(methodName, bytes(fullInput))
@@ -40,3 +42,35 @@ package abi
 //@   ensures (err == nil && len(args) == 1 && typeof(args[0]) == type(string)) ==> bytes(bz) == abiEncString(unbox(args[0], type(string)))
 //@   ensures (err == nil && len(args) == 1 && typeof(args[0]) == type(uint8)) ==> bytes(bz) == abiEncUint(unbox(args[0], type(uint8)))
 //@   ensures err == nil ==> fresh(base(bz))
+
+// ---------------------------------------------------------------------------------------------
+// (helper cpc2, C11) the signed-message structures of the staking precompile
+// ---------------------------------------------------------------------------------------------
+//@ import addresscodec "cosmossdk.io/core/address"
+
+// FromUnpackedStruct re-encodes the ABI-decoded tuple with encoding/json and decodes it into the message: TRUSTED summary
+// (reflection-based codecs); nothing is said about the resulting field values — every clause about a signed message is
+// stated over the fields the message object HAS after this call.
+//@ func (m *StakingMessage) FromUnpackedStruct(v any) (err error)
+//@   assumed
+//@   modifies *m
+//@   panics only_if m == nil
+//@ func (m *WithdrawRewardMessage) FromUnpackedStruct(v any) (err error)
+//@   assumed
+//@   modifies *m
+//@   panics only_if m == nil
+
+// Validate: a valid staking message names one of the three actions, a non-zero delegator, a decodable validator, a POSITIVE
+// amount in the bond denomination, and an old validator exactly for a redelegation.
+//@ func (m StakingMessage) Validate(valAddrCodec addresscodec.Codec, bondDenom string) (err error)
+//@   deterministic[C01.no_node_local_source]
+//@   requires valAddrCodec != nil
+//@   modifies nothing
+//@   ensures[C11.staking_message_valid] err == nil ==> ((m.Action == StakingMessageActionDelegate || m.Action == StakingMessageActionUndelegate || m.Action == StakingMessageActionRedelegate) && m.Delegator != zero(type(common.Address)) && m.Amount != nil && bigval[m.Amount] > 0 && m.Denom == bondDenom)
+//@   panics never
+//@ func (m WithdrawRewardMessage) Validate(valAddrCodec addresscodec.Codec) (err error)
+//@   deterministic[C01.no_node_local_source]
+//@   requires valAddrCodec != nil
+//@   modifies nothing
+//@   ensures[C11.withdraw_message_valid] err == nil ==> m.Delegator != zero(type(common.Address))
+//@   panics never
